@@ -428,6 +428,7 @@ type c13Run struct {
 	recent  []string // keys read, written or deleted through the top outside a transaction (most recent last): likely cached
 	deleted []string // keys removed lately (delete, committed transactional delete, clear): must stay gone for point reads
 	txnCommits, txnRollbacks, txnDelCached int64
+	txnRefused, txnRefusedDouble           int64
 }
 
 func c13Remember(l []string, k string, max int) []string {
@@ -856,6 +857,7 @@ func (r *c13Run) transaction(rt *rapid.T) {
 	}
 	r.log("txn begin ro=%v", ro)
 	delCached := 0
+	var readKeys []string
 	for i, n := 0, rapid.IntRange(1, 4).Draw(rt, "txnOps"); i < n; i++ {
 		switch rapid.SampledFrom([]string{"put", "delete", "delete", "get", "list"}).Draw(rt, "txnOp") {
 		case "put":
@@ -915,6 +917,9 @@ func (r *c13Run) transaction(rt *rapid.T) {
 			if r.errOutcome("get", k, err) {
 				continue
 			}
+			if _, own := overlay[k]; !own {
+				readKeys = append(readKeys, k)
+			}
 			want, exists := view()[k]
 			if ok != exists || (ok && !bytes.Equal(v, want)) {
 				r.viol("txn-get-mismatch", "Get(%s) inside a transaction returned (%x, found=%v), committed state + own writes hold (%x, found=%v)", sxQ(k), v, ok, want, exists)
@@ -955,8 +960,35 @@ func (r *c13Run) transaction(rt *rapid.T) {
 		}
 		return
 	}
+	// An outside writer changes a key the transaction has read (in-memory bases only: the raft transaction keeps a
+	// bolt read transaction open, which must not overlap a write from the same goroutine). Whatever the commit then
+	// answers, the store is still one key/value store: a refused commit leaves none of the transaction's writes behind
+	// (the invariant after this step compares every layer with the model), an accepted one all of them.
+	outside := false
+	if !ro && len(readKeys) > 0 && len(order) > 0 && strings.HasPrefix(r.st.spec.base, "inmem") && rapid.IntRange(0, 3).Draw(rt, "txnOutsideWriter") == 0 {
+		k := readKeys[rapid.IntRange(0, len(readKeys)-1).Draw(rt, "txnOutsideKey")]
+		v := append([]byte{0xee}, rapid.SliceOfN(rapid.Byte(), 1, 3).Draw(rt, "txnOutsideVal")...)
+		var perr error
+		r.watch("put", func() { perr = r.st.top.Put(r.ctx, k, v) })
+		r.log("outside put during txn %s=%x -> %v", sxQ(k), v, perr)
+		if !r.errOutcome("put", k, perr) {
+			r.m[k] = v
+			r.touchedOutside(k)
+			outside = true
+		}
+	}
 	r.watch("commit", func() { err = h.commit(r.ctx) })
 	r.log("txn commit -> %v", err)
+	if outside {
+		if err != nil {
+			r.feats["txn-refused-after-outside-write"] = true
+			r.txnRefused++
+			if len(order) != len(overlay) {
+				r.txnRefusedDouble++
+			}
+			return
+		}
+	}
 	if err != nil {
 		r.viol("txn-commit-failed-without-concurrent-writer", "commit of a transaction failed though nothing else was written since its begin: %v", err)
 		return
@@ -1184,6 +1216,8 @@ func c13RunStack(t *testing.T, spec c13Spec, salt int) {
 		}
 		rec.Class("txn-commit", r.txnCommits)
 		rec.Class("txn-rollback", r.txnRollbacks)
+		rec.Class("txn-refused-after-outside-write", r.txnRefused)
+		rec.Class("txn-refused-after-outside-write-key-written-twice", r.txnRefusedDouble)
 		rec.Class("txn-delete-of-cached-key", r.txnDelCached)
 		rec.Case(class, r.ntAfter || r.ntPfx, verifx.Digest(strings.Join(r.hist, "\n")), func() any {
 			h := r.hist
